@@ -102,6 +102,31 @@ def c15a(ctx):
             ctx.fail(o, at[0], "get_from_hash does not upgrade the stored weak")
 
 
+def c15a_shard_agreement(ctx):
+    """intern, intern_unsized and get_from_hash must pick the sub-shard by the same function of the value hash; otherwise a
+    value is published in one sub-shard and looked up (or re-interned) in another: two canonical allocations, or a
+    reference that cannot be resolved when decoding."""
+    prog = ctx.prog
+    o = ctx.ob("C15.a", "shard-selection-agrees", "K8", "intern, intern_unsized and get_from_hash select the sub-shard by the same accessor of the value's hash")
+    how = {}
+    for fn in ("Interner::intern", "Interner::intern_unsized", "Interner::get_from_hash"):
+        b = ctx.touch(prog.body(fn))
+        si = b.calls_to(r"sharded::Sharded::<T>::shard_index$")
+        o.sites += len(si)
+        if len(si) != 1:
+            ctx.fail(o, Site(b, 0, 0), "%s: expected exactly one shard_index call (found %d)" % (fn, len(si)))
+            continue
+        acc = sorted({(x.callee() or "").rsplit("::", 1)[-1] if x.kind == "call" else x.kind for x in df.origins_of_operand(b, si[0].node["args"][1])})
+        hsrc = []
+        for x in df.origins_of_operand(b, si[0].node["args"][1]):
+            if x.kind == "call" and x.site.node["args"]:
+                hsrc += [("hash_128" if (y.kind == "call" and (y.callee() or "").endswith("hash_128")) else y.kind) for y in df.origins_of_operand(b, x.site.node["args"][0])]
+        how[fn] = (tuple(acc), tuple(sorted(set(hsrc))))
+    accs = {v[0] for v in how.values()}
+    if len(accs) > 1:
+        ctx.fail(o, "(program)", "the sub-shard is selected differently: %s" % ", ".join("%s by %s" % (k, "/".join(v[0])) for k, v in sorted(how.items())))
+
+
 def c15b(ctx):
     prog = ctx.prog
     o = ctx.ob("C15.b", "who-may-remove-from-typed-shards", "K3", "weak entries leave a typed shard only through vacuum_shard's retain (or are replaced in place when dead)")
@@ -242,5 +267,6 @@ def c15c(ctx):
 
 def run(ctx):
     ctx.run_clause("C15.a", c15a)
+    ctx.run_clause("C15.a", c15a_shard_agreement)
     ctx.run_clause("C15.b", c15b)
     ctx.run_clause("C15.c", c15c)
